@@ -23,7 +23,7 @@ structure St where
   last : Option Node := none     -- raw node (real or simulated) returned by the latest traversal
   walk : CState := ⟨Fog.init, [], []⟩   -- state of the concrete fog walk (`Model/Walk.lean`)
   rr : Hash × HexD.Db := (blankRoot keccak, [])   -- root and database of the raw-level run (`HexRaw.rawOp` threaded)
-  free : HexFree.Free × OpSt := (⟨blankRoot keccak, false⟩, ⟨⟨[], none, none⟩, [], []⟩)   -- the tree-free executor (`Model/HexFree.lean`)
+  fw : HexFree.FWorld := HexFree.FWorld.init keccak false   -- the tree-free executor and its `squash_changes` (`Model/HexFree.lean`)
   deriving Inhabited
 
 def pathStr (p : Path) : String :=
@@ -284,34 +284,39 @@ def step (st : St) (cmd : String) (args : List String) : St × String :=
   -- raw level: `set`/`delete` of a non-pruning trie on the current database, statement-by-statement
   -- transcription over raw nodes; prints the new root and the database entries added (state unchanged)
   -- a whole history at raw level, on its own root and database (independent of the world)
-  -- the tree-free executor: root hash + database, raw-level `_set`/`_delete` produce the events, pruning bookkeeping applies them
-  | "fnew", [p] => ({ st with free := (⟨blankRoot keccak, p == "1"⟩, ⟨⟨[], none, none⟩, [], []⟩) }, "ok")
-  | "fop", [k, v] =>
+  -- the tree-free executor: root hash + database, raw-level `_set`/`_delete` produce the events, pruning bookkeeping applies them;
+  -- `b` addresses the batch trie of the open `squash_changes` block
+  | "fnew", [p] => ({ st with fw := HexFree.FWorld.init keccak (p == "1") }, "ok")
+  | "fop", [tg, k, v] =>
     match ofHex k with
     | some k =>
       let val : Option (Option Bytes) := if v = "none" then some none else (ofHex v).map some
       match val with
       | none => bad
       | some val =>
-        match HexFree.freeSetDel keccak st.free.1 k val st.free.2 with
-        | (s', .ok F') => ({ st with free := (F', s') }, "ok")
-        | (s', .error e) => ({ st with free := (st.free.1, s') }, fmtExn e)
+        let (r, fw') := st.fw.setDel keccak (tg == "b") k val
+        ({ st with fw := fw' }, match r with | .ok _ => "ok" | .error e => fmtExn e)
     | none => bad
-  | "froot", [] => (st, toHex st.free.1.root)
-  | "fdb", [] => (st, joinOr ((sortPairs st.free.2.store.base).map fun e => s!"{toHex e.1}:{toHex e.2}") ",")
-  | "fdbkeys", [] => (st, joinOr ((sortPairs st.free.2.store.base).map fun e => toHex e.1) ",")
-  | "fcounts", [] => (st, fmtCounts st.free.2.counts)
-  | "fget", [k] =>
+  | "fbbegin", [] => if st.fw.batch.isSome then bad else ({ st with fw := st.fw.batchBegin }, "ok")
+  | "fbend", [raised] =>
+    let (r, fw') := st.fw.batchEnd (raised == "1")
+    ({ st with fw := fw' }, match r with | .ok _ => "ok" | .error e => fmtExn e)
+  | "ffailafter", [n] => ({ st with fw := { st.fw with failAfter := n.toNat? } }, "ok")
+  | "froot", [tg] => (st, toHex (if tg == "b" then (st.fw.batch.map (·.trie.root)).getD [] else st.fw.outer.root))
+  | "fdb", [] => (st, joinOr ((sortPairs st.fw.base).map fun e => s!"{toHex e.1}:{toHex e.2}") ",")
+  | "fdbkeys", [] => (st, joinOr ((sortPairs st.fw.base).map fun e => toHex e.1) ",")
+  | "fcounts", [tg] => (st, fmtCounts (if tg == "b" then (st.fw.batch.map (·.counts)).getD [] else st.fw.counts))
+  | "fget", [tg, k] =>
     match ofHex k with
-    | some k => (st, match HexFree.freeGet keccak st.free.1 k st.free.2 with | .ok v => s!"v {toHex v}" | .error e => fmtExn e)
+    | some k => (st, match st.fw.get keccak (tg == "b") k with | .ok v => s!"v {toHex v}" | .error e => fmtExn e)
     | none => bad
   | "fdrop", [h] =>
     match ofHex h with
-    | some h => ({ st with free := (st.free.1, { st.free.2 with store := { st.free.2.store with base := Dict.erase st.free.2.store.base h } }) }, "ok")
+    | some h => ({ st with fw := { st.fw with base := Dict.erase st.fw.base h } }, "ok")
     | none => bad
   | "fput", [h, b] =>
     match ofHex h, ofHex b with
-    | some h, some b => ({ st with free := (st.free.1, { st.free.2 with store := { st.free.2.store with base := Dict.insert st.free.2.store.base h b } }) }, "ok")
+    | some h, some b => ({ st with fw := { st.fw with base := Dict.insert st.fw.base h b } }, "ok")
     | _, _ => bad
   | "rrnew", [] => ({ st with rr := (blankRoot keccak, []) }, "ok")
   | "rrop", [k, v] =>
